@@ -77,7 +77,11 @@ def podDigest (p : PodObj) : String :=
     | [] => ("-", "-", "0")
   let retry := match p.pod.retryIndex with | some r => toString r | none => "_"
   let hash := match p.pod.parallelIndex with | some i => i.hash | none => "_"
-  s!"{p.pod.name}|{owner}|{tsec p.pod.creationTimestamp}|{retry}|{hash}|{tsec p.pod.deletionTimestamp}|{phaseStr p.pod.phase}|{tsec p.pod.startTime}|{cst}|{cfi}|{oom}|{orU p.pod.reason}"
+  -- `LastTerminationState.Terminated` of a restarted container (restartPolicy OnFailure)
+  let last := match p.pod.containers.filterMap (·.lastTerminated) with
+    | t :: _ => s!"{tsec t.startedAt},{tsec t.finishedAt}"
+    | [] => "-"
+  s!"{p.pod.name}|{owner}|{tsec p.pod.creationTimestamp}|{retry}|{hash}|{tsec p.pod.deletionTimestamp}|{phaseStr p.pod.phase}|{tsec p.pod.startTime}|{cst}|{cfi}|{oom}|{orU p.pod.reason}|{last}"
 
 def stateStr (s : Sys) : String :=
   let pods := ";".intercalate ((sortPods s.pods).map podDigest)
@@ -104,17 +108,29 @@ def parsePhase (s : String) : PodPhase :=
   if s = "Pending" then .pending else if s = "Running" then .running else if s = "Succeeded" then .succeeded
   else if s = "Failed" then .failed else if s = "Unknown" then .unknown else .other
 
-/-- rebuild a pod object from its digest, keeping identity fields of the previous version -/
+/-- rebuild a pod object from its digest, keeping identity fields of the previous version.  The
+last field is `-` or `<startedAt>,<finishedAt>` of the container's `LastTerminationState.Terminated`
+(a container that was restarted: while it waits for the next restart it has neither a `Running` nor
+a `Terminated` current state, only this one). -/
 def parsePod (old : Option PodObj) (f : List String) : Option PodObj :=
   match f with
-  | [name, owner, ct, retry, hash, del, phase, st, cst, cfi, oom, reason] =>
+  | [name, owner, ct, retry, hash, del, phase, st, cst, cfi, oom, reason, last] =>
     let base : PodObj := old.getD { pod := { name := name } }
-    let conts : List Container :=
+    let lastT : Option Terminated :=
+      match last.splitOn "," with
+      | [a, b] => some { startedAt := optSec a, finishedAt := optSec b, reason := "Error" }
+      | _ => none
+    let conts0 : List Container :=
       if cfi ≠ "-" || (cst ≠ "-" && (phase = "Succeeded" || phase = "Failed")) then
         [{ terminated := some { startedAt := optSec cst, finishedAt := optSec cfi,
                                 reason := if oom = "1" then "OOMKilled" else (if reason = "_" then "Completed" else reason) } }]
       else if cst ≠ "-" then [{ running := some (optSec cst) }]
       else []
+    let conts : List Container :=
+      match lastT, conts0 with
+      | none, cs => cs
+      | some t, [] => [{ lastTerminated := some t }]
+      | some t, c :: cs => { c with lastTerminated := some t } :: cs
     some { base with
       pod := { base.pod with
         name := name, creationTimestamp := optSec ct, deletionTimestamp := optSec del,
@@ -183,7 +199,9 @@ def jcStep (s : Sys) (t : List String) : Sys × String :=
   | ["jc.kill", at_] => fin (mutateJobObj s (fun j => { j with job := { j.job with killTimestamp := optSec at_ } }))
   | ["jc.delete"] => fin (userDeleteJob s)
   | ["jc.adv", d] => fin { s with clock := s.clock + int! d }
-  | ["jc.fault", f] => fin { s with faults := s.faults ++ [if f = "-" then "" else f] }
+  -- `forbidden` (403, not applied) is to the controller what `err` is: a failed call that is retried
+  -- (only 422 Invalid on a pod create is a final refusal, and no fault of this engine produces it)
+  | ["jc.fault", f] => fin { s with faults := s.faults ++ [if f = "-" then "" else if f = "forbidden" then "err" else f] }
   | ["jc.clearfaults"] => fin { s with faults := [] }
   | ["jc.restart"] => fin (restart s)
   | _ => (s, "bad-op")
